@@ -112,6 +112,9 @@ var c11Names = map[string][]string{
 }
 var c11Loose = []string{"/a", "/fruit", "/fruitcake", "/b/c"}
 
+// c11MapKey is the key type of every map type of the current run (drawn at its start).
+var c11MapKey tyE
+
 func genTy(r *simrt.Run, depth int) tyE {
 	k := r.Choose(12, "c11.ty")
 	if depth == 0 && k >= 7 {
@@ -142,7 +145,9 @@ func genTy(r *simrt.Run, depth int) tyE {
 	case 9:
 		return tyE{K: "list", Args: []tyE{genTy(r, depth-1)}}
 	case 10:
-		return tyE{K: "map", Args: []tyE{genTy(r, 0), genTy(r, depth-1)}}
+		// one key type for all map types of a run: two map types whose key
+		// types differ are the trigger of the open finding map-key-contravariance
+		return tyE{K: "map", Args: []tyE{c11MapKey, genTy(r, depth-1)}}
 	default:
 		return tyE{K: "struct", Args: []tyE{genTy(r, depth-1), genTy(r, depth-1)}}
 	}
@@ -289,6 +294,8 @@ func disjointTy(r *simrt.Run, t tyE) tyE {
 func runC11(r *simrt.Run, tier Tier) Outcome {
 	r.OrderPolicy = r.Choose(simrt.NumOrderPolicies, "c11.order")
 	r.OrderSeed = uint64(r.Choose(1<<16, "c11.orderseed"))
+	c11MapKey = tyE{K: "name"}
+	c11MapKey = genTy(r, 0)
 	var src strings.Builder
 	type pred struct {
 		name string
@@ -358,7 +365,20 @@ func runC11(r *simrt.Run, tier Tier) Outcome {
 		body := fmt.Sprintf("%s(%s)", e.name, strings.Join(vars, ", "))
 		var rows [][]tyE
 		var rule string
-		switch r.Choose(11, "c11.rule.kind") {
+		switch r.Choose(12, "c11.rule.kind") {
+		case 11: // inequality filter against a constant (of the column's type in one row, possibly of no row's type)
+			for _, row := range e.rows {
+				rows = append(rows, []tyE{row[0]})
+			}
+			ct := e.rows[r.Choose(len(e.rows), "c11.ineq.row")][0]
+			if r.Bool("c11.ineq.other") {
+				ct = genTy(r, 0)
+			}
+			others := ""
+			for i := 1; i < ar; i++ {
+				others += ", _"
+			}
+			rule = fmt.Sprintf("%s(X) :- %s(X%s), X != %s .", name, e.name, others, genValOf(r, ct).Src())
 		case 8: // join of two predicates on the first column (the variable is already bound when the second premise is met)
 			e2 := edb[r.Choose(len(edb), "c11.rule.edb2")]
 			rest := func(p pred, pre string) string {
